@@ -24,14 +24,23 @@ def run(tier, seed):
     states = trans = 0
     allk = E.tla_kinds(E.CATALOG)
     n = 3
-    r = F.mc(F.consts(MaxOpts=1, MaxStmts=n, Kinds=allk, groups=["start"]), f"<={n} declarations from {len(E.CATALOG)} forms + sequences", timeout=1800)
-    states += r.distinct
-    trans += r.generated
-    cov["model_checked"].append({"config": f"<={n} declarations", "distinct_states": r.distinct})
+    LATE = {("type", "table_opts"), ("type", "kw_key"), ("type", "kw_check"), ("type", "kw_schema_part"), ("type", "kw_default_table"), ("type", "kw_cap")}
+    corek = E.tla_kinds({k: v for k, v in E.CATALOG.items() if k not in LATE})
+    for what_, kinds_, n_ in ([("whole catalogue", allk, n)] if thorough else [("core of the catalogue", corek, n), ("whole catalogue", allk, 2)]):
+        r = F.mc(F.consts(MaxOpts=1, MaxStmts=n_, Kinds=kinds_, groups=["start"]), f"<={n_} declarations, {what_} ({len(E.CATALOG)} forms) + sequences", timeout=1800)
+        states += r.distinct
+        trans += r.generated
+        cov["model_checked"].append({"config": f"<={n_} declarations, {what_}", "distinct_states": r.distinct})
     F.mc(F.consts(MaxOpts=1, MaxStmts=2, WithTable="TRUE", ResetSeq="FALSE"), "sequence mode not reset", expect="SeqModeLocal")
     cov["negative_controls"] = ["ResetSeq=FALSE refutes SeqModeLocal"]
-    g = F.mc(F.consts(WithHist="TRUE", MaxOpts=1, MaxStmts=n, Kinds=allk, groups=["start"], Values='{"v1"}'), "generation", timeout=1800)
+    # quick: triples over the core of the catalogue, pairs over the whole of it (the forms added last stand next to every other form once)
+    genk = allk if thorough else corek
+    g = F.mc(F.consts(WithHist="TRUE", MaxOpts=1, MaxStmts=n, Kinds=genk, groups=["start"], Values='{"v1"}'), "generation", timeout=1800)
     behs = g.beh
+    if not thorough:
+        g2 = F.mc(F.consts(WithHist="TRUE", MaxOpts=1, MaxStmts=2, Kinds=allk, groups=["start"], Values='{"v1"}'), "generation (pairs, whole catalogue)", timeout=1800)
+        seen_ = {repr(b["hist"]) for b in behs}
+        behs = behs + [b for b in g2.beh if repr(b["hist"]) not in seen_]
     seeds = [seed * 13 + i for i in range(1 if not thorough else 4)]
     total, uniq, nbad = F.compare(V, behs, seeds, "catalogue")
     tags = {}
